@@ -268,6 +268,282 @@ def lift(e, sc, hook=None, keep=()):
     return source.inline_node(e1, args, no_calls=False) if args else e1
 
 
+# ---- the request of an iteration, by role (O4.1 - O4.6) --------------------------------------------------------------------------------------------------------------------------------
+# One iteration issues its request where the runner is invoked inside `with <client>.new_request_context() [as ctx]:`. That statement is written in the request loop - or in a
+# helper (coroutine method of the executor / coroutine function of the module) that the loop AWAITS DIRECTLY (same task, same contextvars context; an extracted
+# `_execute_request(runner, params)` that returns the result triple together with the context's start / end). In the second shape the statement of the loop that awaits the
+# helper takes the place of the `with` in the control-flow graph of the loop, and the locals of the loop that the helper's result binds to formulas over the request context
+# (`request_start` <- `ctx.request_start`) read like those formulas. Likewise the runner invocation may be written in a helper awaited inside the `with`, and the result triple is
+# followed by POSITION through the return tuples of such helpers into the locals of the loop. Names of helpers, parameters and locals play no role.
+
+
+def _stored_names(func):
+    return {n.id for n in ast.walk(func) if isinstance(n, ast.Name) and isinstance(n.ctx, ast.Store)}
+
+
+def _all_params(func):
+    a = func.args
+    return {x.arg for x in a.posonlyargs + a.args + a.kwonlyargs} | ({a.vararg.arg} if a.vararg else set()) | ({a.kwarg.arg} if a.kwarg else set())
+
+
+def awaited_helpers(nodes, sc, mod):
+    """[(await node, scope of the helper entered through it)] for the nodes that directly await a coroutine method of the class / coroutine function of the module"""
+    out = []
+    for n in nodes:
+        if isinstance(n, ast.Await) and isinstance(n.value, ast.Call):
+            f = resolve_callee(n.value, mod, sc.defs)
+            if isinstance(f, ast.AsyncFunctionDef) and f is not sc.func:
+                out.append((n, _Scope(f, all_defs(f), call=n.value, outer=sc)))
+    return out
+
+
+def _context_item(w, sc):
+    """the item of a `with` statement that enters a fresh request context of the client (the callee, read over the names of the outermost caller, is `….new_request_context`)"""
+    for i in (w.items if isinstance(w, ast.With) else ()):
+        if isinstance(i.context_expr, ast.Call) and "new_request_context" in u(lift(i.context_expr.func, sc)):
+            return i
+    return None
+
+
+def helper_expr(e, hs, allowed=()):
+    """e - written in the helper of scope hs - over the names of the caller (locals of the helper folded, parameters replaced by the caller's arguments); None if it depends on a
+    local of the helper that is not a plain formula (bound by a call, by an unpacking or more than once) other than the names in `allowed`"""
+    own = _stored_names(hs.func) | _all_params(hs.func)
+    folded = _fold(e, {k: v for k, v in hs.defs.items() if k not in hs.bind}, None, hs)
+    if any(isinstance(n, ast.Name) and n.id in own and n.id not in allowed and n.id not in hs.bind for n in ast.walk(folded)):
+        return None
+    return lift(e, hs)
+
+
+def returned_value(hs):
+    """the value of the helper's single `return` statement (None: no or several returns)"""
+    rets = [r for r in walk_body(hs.func) if isinstance(r, ast.Return)]
+    return rets[0].value if len(rets) == 1 else None
+
+
+def returned_parts(aw, hs):
+    """[(local of the caller, expression the helper returns for it - written in the helper, position)] for the statement `a, b, .. = await helper(..)` around the await node
+    aw (or `r = await helper(..)` with `r` unpacked by the one later statement `a, b, .. = r`, or bound as it is when the helper does not return a tuple display): the
+    helper's single `return` read by position ([] when the statement or the return has another shape)"""
+    stmt = source.enclosing_stmt(aw)
+    ret = returned_value(hs)
+    if ret is None or not (isinstance(stmt, ast.Assign) and len(stmt.targets) == 1 and stmt.value is aw):
+        return []
+    rv = _root(ret, hs.defs)
+    tgt = stmt.targets[0]
+    if isinstance(tgt, ast.Name) and isinstance(rv, ast.Tuple):
+        fn = source.enclosing_func(stmt)
+        later = [n for n in ast.walk(fn) if isinstance(n, ast.Assign) and isinstance(n.value, ast.Name) and n.value.id == tgt.id and len(n.targets) == 1 and isinstance(n.targets[0], ast.Tuple)]
+        stores = [n for n in ast.walk(fn) if isinstance(n, ast.Name) and isinstance(n.ctx, ast.Store) and n.id == tgt.id]
+        if len(later) != 1 or len(stores) != 1:
+            return []
+        tgt = later[0].targets[0]
+    if isinstance(tgt, ast.Name):
+        return [(tgt.id, rv, 0)]
+    if isinstance(tgt, ast.Tuple) and isinstance(rv, ast.Tuple) and all(isinstance(t, ast.Name) for t in tgt.elts):
+        elts = list(rv.elts)
+        stars = [i for i, x in enumerate(elts) if isinstance(x, ast.Starred)]
+        if len(stars) == 1 and len(tgt.elts) >= len(elts) - 1:
+            # `return (*result, start, end)`: the starred value fills the positions that the other elements leave; position j of it reads `<value>[j]` (marked _star)
+            k = len(tgt.elts) - (len(elts) - 1)
+            filled = []
+            for j in range(k):
+                x = ast.Subscript(value=elts[stars[0]].value, slice=ast.Constant(value=j), ctx=ast.Load())
+                x._star = (elts[stars[0]].value, j, k)
+                filled.append(x)
+            elts = elts[:stars[0]] + filled + elts[stars[0] + 1:]
+        if len(tgt.elts) == len(elts) and not any(isinstance(x, ast.Starred) for x in elts):
+            return [(t.id, x, i) for i, (t, x) in enumerate(zip(tgt.elts, elts))]
+    return []
+
+
+def helper_result_defs(sc, mod, skip=()):
+    """{local of the function of scope sc -> formula over the names of that function} for the locals that a statement `a, b, .. = [await] helper(..)` binds, by position, to
+    plain formulas which the helper (method of the class / function of the module, with a single `return` of a tuple display) computes from its parameters: an extracted
+    `_spans(start, end, ..)` that returns several differences at once reads like those differences. A position whose value depends on a call made in the helper (a clock read,
+    a request) is left alone: it stays the opaque result of that call."""
+    stores, out = {}, {}
+    for n in ast.walk(sc.func):
+        if isinstance(n, ast.Name) and isinstance(n.ctx, ast.Store):
+            stores[n.id] = stores.get(n.id, 0) + 1
+    for n in walk_body(sc.func):
+        if not (isinstance(n, ast.Assign) and len(n.targets) == 1) or any(n is x for x in skip):
+            continue
+        c = n.value.value if isinstance(n.value, ast.Await) else n.value
+        f = resolve_callee(c, mod, sc.defs) if isinstance(c, ast.Call) else None
+        if f is None or f is sc.func or isinstance(f, ast.AsyncFunctionDef) != isinstance(n.value, ast.Await):
+            continue
+        hs = _Scope(f, all_defs(f), call=c, outer=sc)
+        same_object = isinstance(c.func, ast.Attribute) and isinstance(c.func.value, ast.Name) and c.func.value.id == "self" and params_of(f)[:1] == ["self"]
+        for name, e, _ in returned_parts(n.value, hs):
+            if stores.get(name) != 1 or name in sc.defs or name in _all_params(sc.func):
+                continue
+            x = helper_expr(e, hs, allowed=("self",) if same_object else ())
+            if x is not None:
+                out[name] = _hang(x, n)
+    return out
+
+
+def _hang(x, stmt):
+    """the synthesized expression x hangs below the statement that binds it (positions, ancestors and the module work); it is never handed to the CFG"""
+    x = ast.fix_missing_locations(ast.copy_location(x, stmt))
+    source.set_parents(x)
+    x._parent = stmt
+    x._module = getattr(stmt, "_module", None)
+    return x
+
+
+class _Request:
+    """stmt: the statement of the loop's function that performs the request (the `with` itself, or the statement that awaits the helper the `with` is written in) - its place
+    in the control-flow graph of the loop; with_: the `with` statement; scope: the function the `with` is written in (the loop's, or the helper's entered through `stmt`);
+    ctxvar: the name under which the formulas of the loop refer to the request context (None: not bound); defs: locals of the loop bound by the helper's result to formulas
+    over the request context, or to ONE reading of a clock taken by the helper ({} when the `with` is written in the loop)"""
+
+    def __init__(self, stmt, with_, scope, ctxvar, defs, clocks=None):
+        self.stmt, self.with_, self.scope, self.ctxvar, self.defs = stmt, with_, scope, ctxvar, defs
+        self.clocks = clocks or {}  # local of the loop -> the assignment of the helper that reads a clock into the single-assignment local which the helper returns for it
+
+    @property
+    def in_helper(self):
+        return self.scope.outer is not None
+
+
+def locate_request(L, sc, mod):
+    """the request of an iteration of the loop L (scope sc), see _Request; AnchorMissing if neither the loop nor a helper it awaits directly enters a request context"""
+    direct = [(n, _context_item(n, sc)) for n in ast.walk(L) if isinstance(n, ast.With)]
+    direct = [(n, i) for n, i in direct if i is not None]
+    if direct:
+        w, item = direct[0]
+        return _Request(w, w, sc, item.optional_vars.id if isinstance(item.optional_vars, ast.Name) else None, {})
+    found = []
+    for aw, hs in awaited_helpers(ast.walk(L), sc, mod):
+        for w in walk_body(hs.func):
+            item = _context_item(w, hs)
+            if item is not None:
+                found.append((aw, hs, w, item))
+                break
+    if len(found) != 1:
+        raise AnchorMissing("request context `with ... new_request_context()` in the request loop" + (
+            "" if not found else f" ({len(found)} helpers awaited from the loop enter a request context)") + " (directly or in a helper the loop awaits)")
+    aw, hs, w, item = found[0]
+    stmt = source.enclosing_stmt(aw)
+    if not (isinstance(stmt, (ast.Assign, ast.Expr)) and stmt.value is aw):
+        raise AnchorMissing(f"the statement of the request loop that awaits the helper {hs.func.name} (which enters the request context) is not a plain assignment of its result")
+    local = item.optional_vars.id if isinstance(item.optional_vars, ast.Name) else None
+    taken = _stored_names(sc.func) | _all_params(sc.func)
+    ctxvar = local if local is None or local not in taken else f"__{local}__"
+    extra, clocks, stores = {}, {}, {}
+    for n in ast.walk(sc.func):
+        if isinstance(n, ast.Name) and isinstance(n.ctx, ast.Store):
+            stores[n.id] = stores.get(n.id, 0) + 1
+    for name, e, _ in returned_parts(aw, hs):
+        if stores.get(name) != 1 or name in sc.defs or name in _all_params(sc.func):
+            continue
+        d = hs.defs.get(e.id) if isinstance(e, ast.Name) else None
+        if d is not None and _clock_name(d) in ("time.perf_counter", "time.time") and not d.args and not d.keywords and isinstance(source.enclosing_stmt(d), ast.Assign):
+            # one reading of a clock taken by the helper (a time stamp of the request moved along with it): the local of the loop reads like that clock read; WHERE it is
+            # taken - relative to the request context - is decided in the helper (req.clocks)
+            extra[name] = _hang(parse_expr(_clock_name(d) + "()"), stmt)
+            clocks[name] = source.enclosing_stmt(d)
+    if local is not None:
+        for name, e, _ in returned_parts(aw, hs):
+            if stores.get(name) != 1 or name in sc.defs or name in _all_params(sc.func) or name in extra:
+                continue
+            x = helper_expr(e, hs, allowed=(local,))
+            if x is None or not any(isinstance(n, ast.Name) and n.id == local for n in ast.walk(x)):
+                continue  # only values of the request context are of interest here; the result triple stays what it is: the opaque result of the runner
+
+            class R(ast.NodeTransformer):
+                def visit_Name(self, n):
+                    return ast.Name(id=ctxvar, ctx=n.ctx) if n.id == local else n
+
+            extra[name] = _hang(R().visit(x), stmt)
+    return _Request(stmt, w, hs, ctxvar, extra, clocks)
+
+
+def runner_calls(req, L, mod):
+    """[(invocation of the runner `execute_single(..)`, node of the function the request context is written in through which it is reached, hops)]: the calls written in that
+    function (in the loop when the `with` is written there), or - if there is none - in a helper awaited from it. hops = [(await node, scope of the helper)] by which the
+    loop's function reaches the invocation, innermost first."""
+    sc = req.scope
+    region = list(walk_body(sc.func)) if req.in_helper else list(ast.walk(L))
+    up = [(req.stmt.value, sc)] if req.in_helper else []
+
+    def is_run(n, defs):
+        return isinstance(n, ast.Call) and last_attr(_root(n.func, defs) if isinstance(n.func, ast.Name) else n.func) == "execute_single"
+
+    out = [(n, n, list(up)) for n in region if is_run(n, sc.defs)]
+    if out:
+        return out
+    for aw, hs in awaited_helpers(region, sc, mod):
+        out += [(n, aw, [(aw, hs)] + up) for n in walk_body(hs.func) if is_run(n, hs.defs)]
+    return out
+
+
+def _triple_names_in(fn, held):
+    """names of the three locals of fn the runner's result is unpacked into, by position. held: the call / await node whose value is the result, or the name of the local
+    of fn that holds it as one value; None unless it is unpacked by one assignment to a plain tuple of three names"""
+    if isinstance(held, str):
+        stores = [n for n in ast.walk(fn) if isinstance(n, ast.Name) and isinstance(n.ctx, ast.Store) and n.id == held]
+        later = [n for n in ast.walk(fn) if isinstance(n, ast.Assign) and isinstance(n.value, ast.Name) and n.value.id == held and len(n.targets) == 1 and isinstance(n.targets[0], ast.Tuple)]
+        if len(stores) != 1 or len(later) != 1 or not all(isinstance(x, ast.Name) for x in later[0].targets[0].elts):
+            return None
+        got = [x.id for x in later[0].targets[0].elts]
+    else:
+        got = unpacked_result(held)
+    return got if got is not None and len(got) == 3 else None
+
+
+def result_names(run_call, hops):
+    """names of the locals of the loop's function that hold (number of operations, unit, meta data) of the runner invocation, by position of the result triple: the unpacking
+    next to the invocation, followed by position through the return tuples of the helpers (hops, innermost first) by which the loop's function reaches it. None if the triple
+    cannot be followed in this shape."""
+    held = run_call  # in the function at hand: node whose value is the whole result | name of a local holding it as one value | list of the three names
+    fn = source.enclosing_func(run_call)
+    for aw, hs in hops:
+        ret = returned_value(hs)
+        if ret is None:
+            return None
+
+        def whole(e):
+            r = _root(e, hs.defs)
+            if isinstance(held, str):
+                return isinstance(r, ast.Name) and r.id == held
+            return (r.value if isinstance(r, ast.Await) else r) is (held.value if isinstance(held, ast.Await) else held)
+
+        if not isinstance(held, list):
+            names = _triple_names_in(hs.func, held)
+            if names is not None:
+                held = names
+        fn = hs.outer.func
+        if not isinstance(held, list) and whole(ret):
+            held = aw  # handed on as it is (`return await execute_single(..)`): the value of the await in the caller is the whole result
+            continue
+        parts = returned_parts(aw, hs)
+        if not parts:
+            return None
+        if isinstance(held, list):
+            out = []
+            for nm in held:
+                at = [t for t, e, _ in parts if isinstance(_root(e, hs.defs), ast.Name) and _root(e, hs.defs).id == nm]
+                if len(at) != 1:
+                    return None
+                out.append(at[0])
+            held = out
+        else:
+            at = [t for t, e, _ in parts if whole(e)]  # one position of the helper's return tuple carries the result as one value
+            spread = sorted((e._star[1], t) for t, e, _ in parts if getattr(e, "_star", None) is not None and e._star[2] == 3 and whole(e._star[0]))  # or it is spread: `*result`
+            if len(at) == 1 and not spread:
+                held = at[0]
+            elif len(spread) == 3 and not at:
+                held = [t for _, t in spread]
+            else:
+                return None
+    if not isinstance(held, list):
+        held = _triple_names_in(fn, held)
+    return held
+
+
 # ---- waits of the request loop (O4.3, O4.2) ------------------------------------------------------------------------------------------------------------------------------------------
 # A wait is `await asyncio.sleep(amount)` written in the loop or in a helper (method of the executor / function of the module) awaited from it. Whether it is the documented
 # sleep-until is decided on VALUES: the guards that control it - in the helper and around the call - and its amount are evaluated for representative (scheduled time, T - now)
@@ -321,7 +597,7 @@ def _truth(e, env):
         return None
 
 
-def wait_verdict(s, sc, L, sched, lat_inl, ctxvar):
+def wait_verdict(s, sc, L, sched, lat_inl, ctxvar, opaque_in=None):
     """('ok' | 'bad' | 'unknown', detail) for one sleep of the request loop: it is the sleep-until of the throttled schedule iff (1) its amount derives from a quantity
     R = T - now() whose T is the very T the throttled latency subtracts from request_end (R + latency == request_end - now()), and (2) for every representative
     (scheduled time, R) the client waits R when the task is throttled (scheduled time > 0) and ahead of time (R > 0) and does not wait otherwise. A condition on the wait
@@ -369,6 +645,9 @@ def wait_verdict(s, sc, L, sched, lat_inl, ctxvar):
     r1 = source.inline_node(rdef, {k: v for k, v in rsc.defs.items() if _is_clock(v)}, no_calls=False)  # `now = clock(); rest = T - now` is one read
     rl = lift(r1, rsc)
     if not rat_equal(ast.BinOp(left=rl, op=ast.Add(), right=lat_inl), parse_expr(f"{ctxvar}.request_end - time.perf_counter()")):
+        if opaque_in is not None and opaque_in(rl, lat_inl):
+            return "unknown", (f"sleep({u(argv)}) waits for {u(rl)}, the throttled latency is {u(lat_inl)}: {opaque_in(rl, lat_inl)} hold(s) the result of a call that cannot be read "
+                               "as a formula")
         return "bad", f"sleep({u(argv)}) waits for {u(rl)} whereas the throttled latency is {u(lat_inl)}: not the same point in time"
     names = {}
     for cs, nm in chain:
@@ -1185,16 +1464,18 @@ def run(chk):
     sched = L.target.elts[0].id if isinstance(L.target, ast.Tuple) and isinstance(L.target.elts[0], ast.Name) else None
     if sched is None:
         raise AnchorMissing("schedule tuple target of the request loop")
-    withs = [n for n in ast.walk(L) if isinstance(n, ast.With) and any("new_request_context" in u(inline_node(i.context_expr, defs)) for i in n.items)]
-    if not withs:
-        raise AnchorMissing("request context `with ... new_request_context()` in the request loop")
-    Wn = withs[0]
-    ctxvar = Wn.items[0].optional_vars.id if isinstance(Wn.items[0].optional_vars, ast.Name) else None
-    runs = [n for n in ast.walk(L) if isinstance(n, ast.Call) and last_attr(_root(n.func, defs) if isinstance(n.func, ast.Name) else n.func) == "execute_single"]
-    if not runs:
-        raise AnchorMissing("runner invocation (execute_single) in the request loop")
-    samp_add, ctor0, attr_of_add_param, b2 = sample_field_flow(drv)
     root_sc = _Scope(call, defs)
+    # the request of the iteration: the `with <client>.new_request_context()` around the runner invocation, written in the loop or in a helper the loop awaits directly
+    req = locate_request(L, root_sc, drv)
+    defs.update(req.defs)  # locals of the loop that the helper's result binds to formulas over the request context read like those formulas
+    defs.update(helper_result_defs(root_sc, drv, skip=[Rq_ for Rq_ in [req.stmt] if req.in_helper]))  # ... and to plain formulas that other helpers return by position
+    Wn, Rq, ctxvar = req.with_, req.stmt, req.ctxvar  # Rq: the statement of the loop's function that performs the request (Wn itself when it is written in the loop)
+    run_sites = runner_calls(req, L, drv)
+    if not run_sites:
+        raise AnchorMissing("runner invocation (execute_single) in the request loop (directly or in a helper awaited for the request)")
+    runs = [r for r, _, _ in run_sites]
+    triple = result_names(run_sites[0][0], run_sites[0][2])  # the locals of the loop that hold the runner's result, by position
+    samp_add, ctor0, attr_of_add_param, b2 = sample_field_flow(drv)
     handovers = sample_handovers(L, root_sc, drv, samp_add)
     if not handovers:
         raise AnchorMissing(f"call of Sampler.{samp_add.name}(...) in the request loop (directly or in a helper of the executor called from it)")
@@ -1221,18 +1502,39 @@ def run(chk):
         hv = expand(a)
         return hv if hv is not None else inline_node(a, defs)
 
+    # a formula can only be judged when every value in it is known: a local bound by unpacking something that could not be read position by position (the result of a call, a
+    # slice of it), or to the result of a call that is neither a clock read nor a helper whose expression could be read (expand), is the OPAQUE result of that call - the
+    # formula is not recognised, never wrong on account of it
+    unpacked_locals = {x.id for n in walk_body(call) if isinstance(n, ast.Assign) for t in n.targets if isinstance(t, (ast.Tuple, ast.List)) for x in ast.walk(t) if isinstance(x, ast.Name)}
+
+    def opaque_in(*exprs):
+        out = []
+        for e in exprs:
+            for n in ast.walk(e) if e is not None else ():
+                if isinstance(n, ast.Name) and n.id not in out and n.id not in (triple or ()):
+                    d = defs.get(n.id)
+                    if (d is None and n.id in unpacked_locals) or (isinstance(d, (ast.Call, ast.Await)) and _clock_name(d) is None):
+                        out.append(n.id)
+        return out
+
+    def formula_ob(title, ok, node, detail, *exprs, key=None):
+        if not ok and opaque_in(*exprs):
+            not_located("O4.1", f"{title}: {opaque_in(*exprs)} in `{'` / `'.join(u(e) for e in exprs if e is not None)[:200]}` hold(s) the result of a call that cannot be read as a formula", node)
+        else:
+            chk.ob("O4.1", title, ok, node, detail)
+
     # ---- O4.1 formulas ---------------------------------------------------------------------------------------------------------------
     chk.rule("O4.1", "service_time == request_end - request_start (same request context); processing_time == processing_end - processing_start; "
              "latency == request_end - (schedule start + scheduled) if throttled else service_time; throttled == scheduled > 0", 5,
              "every request of a throttled (latency) / any (service, processing) task reports a different span than documented")
     if ctxvar is None:
-        not_located("O4.1", "the request context is not bound to a local (`with ... as ctx`)", Wn)
+        not_located("O4.1", "the request context is not bound to a local (`with ... as ctx`)", Rq)
     st = arg_named("service_time")
     if st is None or ctxvar is None:
         not_located("O4.1", "the value handed to the sampler as service_time")
     else:
         e = formula_of(st)
-        chk.ob("O4.1", "service_time = ctx.request_end - ctx.request_start", rat_equal(e, parse_expr(f"{ctxvar}.request_end - {ctxvar}.request_start")), st, f"service_time = {u(e)}")
+        formula_ob("service_time = ctx.request_end - ctx.request_start", rat_equal(e, parse_expr(f"{ctxvar}.request_end - {ctxvar}.request_start")), st, f"service_time = {u(e)}", e)
     pt = arg_named("processing_time")
     pend = pstart = None
     pt_wrong = False
@@ -1253,6 +1555,9 @@ def run(chk):
         if not ok and isinstance(e, ast.BinOp) and isinstance(e.op, ast.Sub) and all(clock_local(x) or opaque_local(x) for x in (e.left, e.right)):
             pt_wrong = False
             not_located("O4.1", f"the clock behind the processing interval `{u(e)}` (its ends are results of calls that are not the monotonic clock function itself)", pt)
+        elif not ok and opaque_in(e):
+            pt_wrong = False
+            not_located("O4.1", f"the processing interval `{u(e)}`: {opaque_in(e)} hold(s) the result of a call that cannot be read as a formula", pt)
         else:
             chk.ob("O4.1", "processing_time = processing_end - processing_start (both perf_counter)", ok, pt, f"processing_time = {u(e)}")
     lat = arg_named("latency")
@@ -1295,12 +1600,12 @@ def run(chk):
             if ok_t is None:
                 not_located("O4.1", f"the throttle condition `{u(thr_expr)}` of the latency cannot be evaluated on the scheduled time", lat)
             else:
-                chk.ob("O4.1", "throttled == (scheduled time > 0)", ok_t, lat, detail)
+                formula_ob("throttled == (scheduled time > 0)", ok_t, lat, detail, thr_expr)
             if ctxvar is not None:
-                chk.ob("O4.1", "throttled latency = request_end - (schedule start + scheduled time)", ok_b, lat, detail)
+                formula_ob("throttled latency = request_end - (schedule start + scheduled time)", ok_b, lat, detail, inline_node(le.body, defs))
             if st is not None:
                 ok_e = u(inline_node(le.orelse, defs)) == u(formula_of(st)) or rat_equal(inline_node(le.orelse, defs), formula_of(st))
-                chk.ob("O4.1", "unthrottled latency = service_time", ok_e, lat, detail)
+                formula_ob("unthrottled latency = service_time", ok_e, lat, detail, inline_node(le.orelse, defs), formula_of(st))
         elif any(isinstance(n, (ast.Call, ast.Await)) for n in ast.walk(le)) or isinstance(le, ast.Name):
             not_located("O4.1", f"the latency `{u(le)}` is not a formula of this function", lat)
         else:
@@ -1312,12 +1617,12 @@ def run(chk):
     if rs is None or ctxvar is None:
         not_located("O4.1", "the value handed to the sampler as request_start")
     else:
-        chk.ob("O4.1", "sample's request_start is the context's request_start", u(formula_of(rs)) == f"{ctxvar}.request_start", rs, "")
+        formula_ob("sample's request_start is the context's request_start", u(formula_of(rs)) == f"{ctxvar}.request_start", rs, f"request_start = {u(formula_of(rs))}", formula_of(rs))
     tp = arg_named("time_period")
     if tp is None or ctxvar is None:
         not_located("O4.1", "the value handed to the sampler as time_period")
     else:
-        chk.ob("O4.1", "time_period = request_end - task start", rat_equal(formula_of(tp), parse_expr(f"{ctxvar}.request_end - {total_start}")), tp, "")
+        formula_ob("time_period = request_end - task start", rat_equal(formula_of(tp), parse_expr(f"{ctxvar}.request_end - {total_start}")), tp, f"time_period = {u(formula_of(tp))}", formula_of(tp))
 
     # the request context's start/end are the earliest send / latest response of all wire requests (shared with C18/O18.1)
     from rules.C18 import merge_kind
@@ -1336,16 +1641,33 @@ def run(chk):
     chk.rule("O4.2", "processing_start is taken before entering the request context, processing_end after leaving it, the runner is invoked inside it; "
              "all four timestamps come from the same monotonic clock; the issue time stamp is taken after the throttle wait", 5,
              "processing_time < service_time for some request, or samples stamped with the time the wait began")
-    wn = g.node_of(Wn)
-    ok = all(Wn in list(source.ancestors(r)) for r in runs)
+    wn = g.node_of(Rq)
+    ok = all(Wn in list(source.ancestors(top)) for _, top, _ in run_sites)  # (top: the invocation itself, or the await - in the function of the `with` - of the helper it is written in)
     chk.ob("O4.2", "runner invoked inside the request context", ok, runs[0], "")
     # the waits of an iteration: sleeps written in the loop or in a helper awaited from it; awaits that cannot be followed are kept apart (never a verdict)
-    sites, opaque = wait_sites(L, _Scope(call, defs), drv)
+    sites, opaque = wait_sites(L, root_sc, drv)
+
+    def in_request(n):
+        return any(a is Rq for a in source.ancestors(n))
 
     def before_request(n):
-        return not any(a is Wn for a in source.ancestors(n)) and g.path_exists(g.node_of(n), wn, avoid=[Lh])
+        return not in_request(n) and g.path_exists(g.node_of(n), wn, avoid=[Lh])
 
-    wait_tops = list({id(t): t for _, _, t in sites}.values())
+    # a helper that performs the request and ALSO sleeps before it enters the request context: the wait cannot be placed relative to the clock reads of the loop
+    inner_waits, gh = [], None
+    if req.in_helper:
+        gh = cfg_of(req.scope.func)
+
+        def in_req_helper(n, sc_):  # the node of the request helper through which the sleep n (written in scope sc_) is reached
+            while sc_.func is not req.scope.func and sc_.outer is not None:
+                n, sc_ = sc_.call, sc_.outer
+            return n if sc_.func is req.scope.func and sc_.outer is not None else None
+
+        for s_, sc_, t in sites:
+            n_ = in_req_helper(s_, sc_) if in_request(t) else None
+            if n_ is not None and not any(a is Wn for a in source.ancestors(n_)) and gh.path_exists(gh.node_of(n_), gh.node_of(Wn)):
+                inner_waits.append(s_)
+    wait_tops = list({id(t): t for _, _, t in sites if not in_request(t)}.values())
     opaque_before = list({id(t): t for _, t in opaque if before_request(t)}.values())
 
     def assigns_in_loop(name):
@@ -1356,21 +1678,47 @@ def run(chk):
         """the waits that can run after a_node and before the request of the same iteration"""
         return [w for w in waits if g.path_exists(a_node, g.node_of(w), avoid=[Lh]) and g.path_exists(g.node_of(w), wn, avoid=[Lh]) and g.node_of(w) is not a_node]
 
+    def place_of(name):
+        """(graph, statement that reads the clock into the local, its node, node at which the request context is entered in that graph, the statement that stands for the request
+        context there, nodes to avoid = the loop head) - in the loop, or in the helper that performs the request when the time stamp was moved there along with it"""
+        if name in req.clocks:
+            a = req.clocks[name]
+            return gh, a, gh.node_of(a), gh.node_of(Wn), Wn, []
+        a = assigns_in_loop(name)
+        return (g, a[0], g.node_of(a[0]), wn, Rq, [Lh]) if a else None
+
+    def helper_awaits_between(a_node):
+        """awaits of the request helper that can run after a_node and before its request context is entered: (sleeps, awaits of anything else)"""
+        aws = [n for n in walk_body(req.scope.func) if isinstance(n, ast.Await) and not any(a is Wn for a in source.ancestors(n)) and gh.node_of(n) is not a_node
+               and gh.path_exists(a_node, gh.node_of(n)) and gh.path_exists(gh.node_of(n), gh.node_of(Wn))]
+        return [n for n in aws if _is_sleep(n)], [n for n in aws if not _is_sleep(n)]
+
     if pt is not None and pstart is not None and pend is not None:
-        ps_node, pe_node = assigns_in_loop(pstart), assigns_in_loop(pend)
-        if not ps_node or not pe_node:
+        ps_, pe_ = place_of(pstart), place_of(pend)
+        if ps_ is None or pe_ is None:
             not_located("O4.2", "the clock reads of the processing interval are not taken in the request loop")
         else:
-            psn, pen = g.node_of(ps_node[0]), g.node_of(pe_node[0])
-            ok = Wn not in list(source.ancestors(ps_node[0])) and g.dominated_by_nodes(wn, [psn]) and not g.path_exists(wn, psn, avoid=[Lh])
-            chk.ob("O4.2", "processing_start before the context", ok, ps_node[0], "")
-            ok = Wn not in list(source.ancestors(pe_node[0])) and g.dominated_by_nodes(pen, [wn]) and not g.path_exists(pen, wn, avoid=[Lh])
-            chk.ob("O4.2", "processing_end after the context", ok, pe_node[0], "")
+            G_, a_, n_, entry_, cs_, av_ = ps_
+            psn = n_
+            ok = cs_ not in list(source.ancestors(a_)) and G_.dominated_by_nodes(entry_, [n_]) and not G_.path_exists(entry_, n_, avoid=av_)
+            chk.ob("O4.2", "processing_start before the context", ok, a_, "")
+            G_, a_, n_, entry_, cs_, av_ = pe_
+            ok = cs_ not in list(source.ancestors(a_)) and G_.dominated_by_nodes(n_, [entry_]) and not G_.path_exists(n_, entry_, avoid=av_)
+            chk.ob("O4.2", "processing_end after the context", ok, a_, "")
             # no wait between processing_start and the context entry
-            late = between(psn, wait_tops)
-            chk.ob("O4.2", "no wait between processing_start and the request", not late, ps_node[0], "" if not late else f"`{short(late[0], 60)}` runs after the processing interval has started")
-            if not late and between(psn, opaque_before):
-                not_located("O4.2", f"`{short(between(psn, opaque_before)[0], 60)}` between processing_start and the request cannot be followed (it may wait)", ps_node[0])
+            if pstart in req.clocks:
+                late, unfollowed = helper_awaits_between(psn)
+                chk.ob("O4.2", "no wait between processing_start and the request", not late, ps_[1], "" if not late else f"`{short(late[0], 60)}` runs after the processing interval has started")
+                if not late and unfollowed:
+                    not_located("O4.2", f"`{short(unfollowed[0], 60)}` between processing_start and the request cannot be followed (it may wait)", ps_[1])
+            else:
+                late = between(psn, wait_tops)
+                if not late and inner_waits:
+                    not_located("O4.2", f"`{short(inner_waits[0], 60)}`: the helper that performs the request also waits before it enters the request context", ps_[1])
+                else:
+                    chk.ob("O4.2", "no wait between processing_start and the request", not late, ps_[1], "" if not late else f"`{short(late[0], 60)}` runs after the processing interval has started")
+                if not late and between(psn, opaque_before):
+                    not_located("O4.2", f"`{short(between(psn, opaque_before)[0], 60)}` between processing_start and the request cannot be followed (it may wait)", ps_[1])
     elif pt is not None and not pt_wrong:
         not_located("O4.2", "processing_start / processing_end")
     ch = ctx.cls("RequestContextHolder")
@@ -1403,11 +1751,21 @@ def run(chk):
     at_root = _root(at, defs) if at is not None else None
     if at is None:
         not_located("O4.2", "the value handed to the sampler as absolute_time")
+    elif isinstance(at, ast.Name) and at.id in req.clocks:
+        # the stamp is taken by the helper that performs the request: after every wait of the loop; in the helper it must precede the request context with no wait in between
+        G_, an_, n_, entry_, cs_, _ = place_of(at.id)
+        late, unfollowed = helper_awaits_between(n_)
+        ok = _clock_name(at_root) == "time.time" and cs_ not in list(source.ancestors(an_)) and G_.dominated_by_nodes(entry_, [n_]) and not G_.path_exists(entry_, n_) and not late
+        chk.ob("O4.2", "issue time stamp (wall clock) taken after the throttle wait and before the request", ok, an_, "" if ok else "the stamp is taken before a wait (or not on every path before the request, or not from the wall clock)")
+        if ok and unfollowed:
+            not_located("O4.2", f"`{short(unfollowed[0], 60)}` between the issue time stamp and the request cannot be followed (it may wait)", an_)
     elif isinstance(at, ast.Name) and at.id in defs and _clock_name(at_root) is not None and assigns_in_loop(at.id):
         an_ = assigns_in_loop(at.id)[0]
         late = [w for w in wait_tops if g.path_exists(g.node_of(an_), g.node_of(w), avoid=[Lh])]
         ok = _clock_name(at_root) == "time.time" and g.dominated_by_nodes(wn, [g.node_of(an_)]) and not late
         chk.ob("O4.2", "issue time stamp (wall clock) taken after the throttle wait and before the request", ok, an_, "" if ok else "the stamp is taken before a wait (or not on every path, or not from the wall clock)")
+        if ok and inner_waits:
+            not_located("O4.2", f"`{short(inner_waits[0], 60)}`: the helper that performs the request also waits before it enters the request context (after the issue time stamp)", an_)
         if ok and between(g.node_of(an_), opaque_before):
             not_located("O4.2", f"`{short(between(g.node_of(an_), opaque_before)[0], 60)}` between the issue time stamp and the request cannot be followed (it may wait)", an_)
     elif _clock_name(at) in ("time.time", "time.perf_counter"):
@@ -1424,7 +1782,9 @@ def run(chk):
     for s, sc, top in sites:
         if not before_request(top):
             continue
-        kind, detail = wait_verdict(s, sc, L, sched, lat_inl, ctxvar)
+        kind, detail = wait_verdict(s, sc, L, sched, lat_inl, ctxvar, opaque_in)
+        if kind == "ok" and inner_waits:
+            kind, detail = "unknown", detail + f"; the helper that performs the request waits as well (`{short(inner_waits[0], 50)}`) before it enters the request context"
         if kind == "ok":
             # the decision to wait is on every path to the request
             stmt = source.enclosing_stmt(top)
@@ -1443,8 +1803,10 @@ def run(chk):
         not_located("O4.3", f"sleep-until of the throttled schedule: {unk[0][1]}", unk[0][2])
     elif verdicts:
         chk.ob("O4.3", "sleep-until on the scheduled time precedes the request", False, verdicts[0][2], verdicts[0][1])
-    elif opaque_before:
-        not_located("O4.3", f"sleep-until of the throttled schedule: no sleep before the request, `{short(opaque_before[0], 60)}` cannot be followed", opaque_before[0])
+    elif opaque_before or inner_waits:
+        x_ = (opaque_before or inner_waits)[0]
+        not_located("O4.3", f"sleep-until of the throttled schedule: no sleep before the request in the loop, `{short(x_, 60)}` " +
+                    ("cannot be followed" if opaque_before else "is written in the helper that performs the request"), x_)
     else:
         chk.ob("O4.3", "sleep-until on the scheduled time precedes the request", False, L, "no wait before the request: neither the loop nor anything awaited from it before the request sleeps")
 
@@ -1473,17 +1835,27 @@ def run(chk):
         cn = [g.node_of(n) for n in cancel_ifs]
         starts = [g.nodes[y] for y, lab in g.succ[Lh.id] if lab == "iter" and not any(g.nodes[y] is c for c in cn)]
         reach = g.reachable(starts, avoid=cn + [Lh]) if starts else set()
-        early = [w for w in wait_tops + opaque_before + [Wn] if g.node_of(w).id in reach or any(g.node_of(w) is s_ for s_ in starts)]
+        early = [w for w in wait_tops + opaque_before + [Rq] if g.node_of(w).id in reach or any(g.node_of(w) is s_ for s_ in starts)]
         chk.ob("O4.3", "cancellation test precedes waiting", not early, cancel_ifs[0], "" if not early else f"`{short(early[0], 60)}` can run before the cancellation test of the iteration")
 
     # ---- O4.4 one sample per request -----------------------------------------------------------------------------------------------------------------
     chk.rule("O4.4", "on every normal path from the runner invocation to the next iteration or loop exit exactly one sampler.add call is passed", 3,
              "requests without a sample (lost) or with two samples (double counted)")
     chk.ob("O4.4", "single sampler.add site in the loop", len(adds) == 1, addc, f"{len(adds)} site(s)")
-    ok = source.logical_parent(source.enclosing_stmt(addc)) is L and not guards(addc, stop=L) and source.enclosing(addc, (ast.For, ast.While, ast.AsyncFor)) is L and add_always
+    def plain_nesting(stmt):
+        """the statement is a statement of the loop body, possibly inside `with` blocks / the body or the finally clause of a `try` (which do not make it conditional on
+        normal paths); inside an except handler, an else clause or any other compound statement it is not"""
+        c, p_ = stmt, source.logical_parent(stmt)
+        while p_ is not None and p_ is not L:
+            if not (isinstance(p_, (ast.With, ast.AsyncWith)) or (isinstance(p_, ast.Try) and any(c is x for x in list(p_.body) + list(p_.finalbody)))):
+                return False
+            c, p_ = p_, source.logical_parent(p_)
+        return p_ is L
+
+    ok = plain_nesting(source.enclosing_stmt(addc)) and not guards(addc, stop=L) and source.enclosing(addc, (ast.For, ast.While, ast.AsyncFor)) is L and add_always
     chk.ob("O4.4", "sampler.add unconditional at loop-body level", ok, addc, f"guards={[(u(t), p) for t, p in guards(addc, stop=L)]}" + ("" if add_always else "; conditional inside the helper that records the sample"))
     an = g.node_of(addc)
-    wx = [n for n in g.by_ast.get(id(Wn), []) if n.kind == "with_exit"]
+    wx = [wn] if req.in_helper else [n for n in g.by_ast.get(id(Wn), []) if n.kind == "with_exit"]  # where the request of the iteration is finished
     if not wx:
         raise AnchorMissing("exit of the request context in the control-flow graph of the request loop")
     # (the rest of the iteration hangs in the synthetic else of the cancellation guard clause: only the breaks of the test's own arm belong to it)
@@ -1499,7 +1871,7 @@ def run(chk):
     # ---- O4.5 field flow ----------------------------------------------------------------------------------------------------------------------------------
     chk.rule("O4.5", "positional/keyword flow loop arguments -> Sampler.add parameters -> Sample(...) arguments -> Sample attributes lands every value in the attribute of its meaning", 15,
              "two same-typed values swapped (latency/service_time, absolute_time/request_start, ...): every record carries the wrong number under the right name")
-    roles = flow_roles(L, defs, ctxvar, total_start, unpacked_result(runs[0]), drv, sched, expand)
+    roles = flow_roles(L, defs, ctxvar, total_start, triple, drv, sched, expand)
     for src_expr, want in EXPECTED_FLOW.items():
         hits = [p for p, a in b1.items() if roles[src_expr](a)]  # parameters of Sampler.add that receive the value with this role
         if not hits:
@@ -1529,7 +1901,7 @@ def run(chk):
     else:
         chk.ob("O4.5", "task_start := sampler start timestamp", is_self_attr(ts) and stamp_attrs.get(ts.attr) in clock_params, ctor0, f"task_start = {u(ts)}")
 
-    check_execute_single(chk, drv, "O4.6", runs)
+    check_execute_single(chk, drv, "O4.6", runs, results={id(r): (result_names(r, hops), call) for r, _, hops in run_sites})
 
     pending = None
     try:
@@ -1635,7 +2007,7 @@ def value_sources(fn, name, mod, region=None, depth=2):
     return out
 
 
-def check_execute_single(chk, drv, RID, runs=()):
+def check_execute_single(chk, drv, RID, runs=(), results=None):
     """Uniform error result and abort policy of execute_single (shared by C04/O4.6 and C09/O9.5b).
     The three result variables are located by role, not by name: they are the names at positions 0/1/2 of the function's single result tuple, and that tuple is tied to its meaning
     through the stable dict keys of the runner protocol (position 0 receives return_value.pop('weight', ..), position 1 .pop('unit', ..), position 2 is the dict carrying 'success').
@@ -1810,8 +2182,8 @@ def check_execute_single(chk, drv, RID, runs=()):
     # unpacked in the loop in the same order: position i of the unpacking is the value handed to the sampler as ops / ops_unit / meta_data
     for r in runs:
         asg = source.enclosing_stmt(r)
-        got = unpacked_result(r)
-        fn = source.enclosing_func(r)
+        # (results: the locals of the function that hands the sample over which hold the triple, followed by position through helpers - see result_names)
+        got, fn = results[id(r)] if results is not None and id(r) in results else (unpacked_result(r), source.enclosing_func(r))
         samp_add, _, attr_of_add_param, _ = sample_field_flow(drv)
         defs_ = all_defs(fn) if fn is not None else {}
         adds = sample_handovers(fn, _Scope(fn, defs_), drv, samp_add) if fn is not None else []
